@@ -80,19 +80,19 @@ class Unresolvable(Exception):
     """A declaration cannot be spelled unambiguously from a referring scope (shadowed global name)."""
 
 
-def gen_spec(rng: Rng, want_mc: bool = None, min_ports: int = 1, profile: str = 'default') -> dict:
+def gen_spec(rng: Rng, want_mc: bool = None, min_ports: int = 1, profile: str = 'default', mc_triggers: bool = False) -> dict:
     """Generate a model spec.  want_mc: force (True) / forbid (False) a multi-client capable provides port.
     Only well-formed, unambiguous models are produced: a draft in which some reference has no unambiguous
     spelling is discarded and redrawn."""
     for attempt in range(50):
         try:
-            return _gen_spec(rng.fork('attempt', attempt), want_mc, min_ports, profile)
+            return _gen_spec(rng.fork('attempt', attempt), want_mc, min_ports, profile, mc_triggers)
         except Unresolvable:
             continue
     raise RuntimeError('could not generate a resolvable model')
 
 
-def _gen_spec(rng: Rng, want_mc, min_ports, profile) -> dict:
+def _gen_spec(rng: Rng, want_mc, min_ports, profile, mc_triggers=False) -> dict:
     names = NameGen(rng)
     if want_mc is None:
         want_mc = rng.chance(45)
@@ -195,6 +195,9 @@ def _gen_spec(rng: Rng, want_mc, min_ports, profile) -> dict:
                          force_ret={'kind': 'void'})
         itf['events'].insert(rng.below(len(itf['events']) + 1), claim)
         itf['events'].insert(rng.below(len(itf['events']) + 1), release)
+        if mc_triggers and not any(e['dir'] == 'in' and e['name'] not in (claim_name, release_name) for e in itf['events']):
+            itf['events'].insert(rng.below(len(itf['events']) + 1),
+                                 _event(rng, evn, itf, externs, enums, subints, force_dir='in'))
         # decoy events literally called Claim / Release that are NOT the configured ones
         if not literal and rng.chance(40):
             have = {e['name'] for e in itf['events']}
